@@ -19,10 +19,10 @@ import (
 
 func init() {
 	register(&property{
-		ID: "C04",
+		ID:          "C04",
 		Explanation: "Static decision of the crash- and allocation-safety obligations of all code that runs per connection (everything reachable from Match/Handle/Select/handle in the module): (R1) every index and slice operation is an obligation 0 <= i < len / lo <= hi <= len; each is discharged by the bounds prover (difference-constraint reasoning over go/ssa from type widths, make/slice definitions, io.Reader/copy/IndexByte contracts, loop-index induction and the dominating branch conditions) or must be listed, with a reason, in the reviewed table specs/audited_bounds.json - a site that is neither proven nor audited is a violation naming function and expression; (R2) every make() with a non-constant size has a proven constant upper bound of at most 64 KiB + 1 KiB; (R3) dynamic-type agreement: every unchecked type assertion on a value taken from the connection's variable table / context / replacer under a constant key has, for that key, only producers of an identical or implementing type; (R4) every division, modulo and rand.Intn with a non-constant operand has the operand proven >= 1; (R5) no explicit panic, Must* or log.Fatal* is reachable; (R6) no method is called on a possibly-nil pool slot (path evaluation of the selection policies).",
-		NotDecided: "Panics and allocation inside third-party parsers (dns.Msg.Unpack, http.ReadRequest, hpack, quic-go, proxyprotocol.Parse, go-socks5) - trusted base; nil dereferences in general; stack depth; the audited sites of R1 rest on the stated reason, not on a machine proof.",
-		Run:        runC04,
+		NotDecided:  "Panics and allocation inside third-party parsers (dns.Msg.Unpack, http.ReadRequest, hpack, quic-go, proxyprotocol.Parse, go-socks5) - trusted base; nil dereferences in general; stack depth; the audited sites of R1 rest on the stated reason, not on a machine proof.",
+		Run:         runC04,
 	})
 }
 
@@ -344,7 +344,7 @@ func (p *prover) checkIndex(b *ssa.BasicBlock, x, idx ssa.Value, in ssa.Instruct
 	i := p.lin(idx)
 	l := p.lenOf(x)
 	ok := i.ok && p.entails(b, negLin(i), 0) // i >= 0
-	d := addLin(i, negLin(l))               // i - len <= -1
+	d := addLin(i, negLin(l))                // i - len <= -1
 	ok = ok && d.ok && p.entails(b, d, -1)
 	report("C04.R1", in, "index", ok, "0 <= index < len")
 }
@@ -750,7 +750,6 @@ func c04R5(c *Ctx, r *Report, rule string) {
 		r.ok(rule, "module", "no explicit panic", "-", fmt.Sprintf("%d per-connection functions scanned", len(reach)))
 	}
 }
-
 
 // c04Postgres: bounded exhaustive path evaluation of the postgres matcher's parsing with concrete
 // lengths and symbolic bytes: no index or slice operation may go out of range.
